@@ -41,7 +41,7 @@ var srvECS = []string{"10.1.9.0/24", "10.2.9.0/24", "198.51.100.0/24", "2001:db8
 type SrvOp struct {
 	Kind    string `json:"kind"` // "reload", "jump", "close"
 	Full    bool   `json:"full,omitempty"`
-	Fault   string `json:"fault,omitempty"` // "", "missing", "garbage", "nokey", "inject"
+	Fault   string `json:"fault,omitempty"` // "", "missing", "garbage", "nokey", "inject", "lowio" (the low-level catch-up call of a RocksDB partial reload fails)
 	DelayMs int    `json:"delay_ms,omitempty"`
 	After   bool   `json:"after,omitempty"`
 	Decoy   bool   `json:"decoy,omitempty"` // after a successful switch, republish the path served before with a decoy generation
@@ -278,6 +278,11 @@ func runSrv(t *testing.T, sc *SrvScenario, keep bool, res *core.Result, hooks *s
 		setCatch := func(b *mon.Backend, openPath string) {
 			if sc.Backend != "cdb" {
 				b.CatchUp = func(p string) bool { return p == openPath }
+				if r := db.VerifRDB(b.Inner()); r != nil {
+					lf := &mon.LowFault{M: m}
+					rdb.VerifWrapDBI(r, func(d rdb.DBI) rdb.DBI { lf.DBI = d; return lf })
+					b.Low = lf
+				}
 			}
 			b.Derive = derive
 		}
@@ -462,7 +467,7 @@ func runSrv(t *testing.T, sc *SrvScenario, keep bool, res *core.Result, hooks *s
 					return
 				}
 				rec.Pub = s.Seq()
-				plan := mon.ReloadPlan{Fail: o.Fault == "inject"}
+				plan := mon.ReloadPlan{Fail: o.Fault == "inject", FailLow: o.Fault == "lowio"}
 				if o.After {
 					plan.DelayAfter = time.Duration(o.DelayMs) * time.Millisecond
 				} else {
@@ -533,6 +538,9 @@ func runSrv(t *testing.T, sc *SrvScenario, keep bool, res *core.Result, hooks *s
 
 		h.RunErr = s.Run()
 		res.FromSim(s)
+		if m.LowFaults > 0 {
+			res.Probe("lowlevel_catchup_failed")
+		}
 		if h.RunErr != nil {
 			if errors.Is(h.RunErr, sched.ErrDeadlock) {
 				res.Add("deadlock", "deadlock", h.RunErr.Error())
@@ -638,6 +646,9 @@ func drawSrv(rt *rapid.T, o srvDrawOpts) SrvScenario {
 		}
 		if backend != "cdb" && !op.Full && (op.Fault == "missing" || op.Fault == "garbage") {
 			op.Fault = "inject" // a RocksDB directory in use cannot be removed or trashed meaningfully
+		}
+		if op.Fault == "lowio" && (backend == "cdb" || op.Full) {
+			op.Fault = "inject" // only a RocksDB catch-up has a low-level call to fail
 		}
 		op.DelayMs = rapid.SampledFrom([]int{0, 0, 0, 0, 7, 23, 61, 97}).Draw(rt, "delay")
 		op.After = rapid.Bool().Draw(rt, "after")
